@@ -213,6 +213,7 @@ class C10(IRProp):
         jcases = [gen_parts(rnd) for _ in range(len(cases) // 2)]
         jlines = [join_line(c) for c in jcases]
         jimpl = [run_join(c) for c in jcases]
+        self._jj = list(zip(jcases, jimpl))
         jgot = C.run_driver("iu", jlines)
         dis += [{"case": l, "implementation": o, "model": g} for l, o, g in zip(jlines, jimpl, jgot) if o != g]
         lines = lines + jlines
@@ -236,6 +237,23 @@ class C10(IRProp):
                 after = out.split(" || ")[1]
                 if after != before:
                     bads.append(dict(what=f"join(split(I)) != I: {before} -> {after}", input=c, finding=None))
+        # joined intervals keep every annotation of their parts
+        import re
+        jj = getattr(self, "_jj", None)
+        if jj is None or boosted:
+            rnd = C.rng("c10-join-boost")
+            cs = [gen_parts(rnd) for _ in range(3000)]
+            jj = (jj or []) + [(c, run_join(c)) for c in cs]
+        for c, out in jj:
+            if out.startswith("err"):
+                continue
+            want = sorted(v for part in c["parts"] for t in part["tabs"] for v in t.values())
+            got = sorted(int(x.split(":")[1]) for grp in re.findall(r"T\{([^}]*)\}", out) for x in grp.split(",") if x)
+            wantx = sorted(v for part in c["parts"] for v in part["symex"].values())
+            gotx = sorted(int(x.split(":")[1]) for grp in re.findall(r"X\{([^}]*)\}", out) for x in grp.split(",") if x)
+            if want != got or wantx != gotx or "LEFTOVER" in out:
+                bads.append(dict(what=f"join_byte_intervals loses or leaves behind annotations: table values {got} (expected {want}), expressions {gotx} (expected {wantx})",
+                                 input=c, finding=None))
         # the no-op and alignment clauses on whole rewrites
         n = 0
         for sd in self.seeds("quick" if not boosted else "boost", self.tag + "-ir")[: (150 if not boosted else 600)]:
